@@ -1,8 +1,255 @@
 import HapVerif.Model.C12
 import HapVerif.Drv.Common
+/-!
+Driver for C12.
+
+mode `inst` (a real `haproxy.Instance` with simulated sockets, driven op by op):
+
+  `C12 inst <queue 0|1> <n> <shard of name 0>.<shard of name 1>... <op>,<op>,... => <obs>;<obs>;...`
+
+ops: `aX.C.S` AcquireBackend(name X) + fill (cfg C = 4*conf+epv, S empty slots) when new, `rX.Y..`
+Backends.RemoveAll, `HX.C` AcquireHost + fill when new, `RX.Y..` Hosts.RemoveAll, `TV` tcp service
+content V, `F` config.Clear(), `u[:fault]` HAProxyUpdate, `q[:fault]` one run of the reload queue
+worker.  faults: `tm fm bm cl mc sh<k> rs rr ad<i>+<j>.. ab<i>+<j>..`.
+One observation per u/q op:
+`e<err>|items|hosts|tcp want|file=ents,..|maps|tcpmap.tcpcrt.tcpmain|running backends|running maps|running tcp|pending`.
+
+mode `world` (the world runner with a fault script): see `handleWorld`.
+-/
 namespace HapVerif.C12
 open HapVerif.Drv
+open HapVerif.C05
 
-def handle (_args : List String) (_impl : String) : Verdict := bad "C12-not-implemented"
+/-! ### inst mode -/
+
+def toFin (p : Nat) (s : String) : Option (Fin p) := do
+  let n ← s.toNat?
+  if h : n < p then some ⟨n, h⟩ else none
+
+def parseFault (s : String) : Option Fault :=
+  if s = "" then some .none
+  else if s = "tm" then some .tcpMaps
+  else if s = "fm" then some .frontMaps
+  else if s = "bm" then some .backMaps
+  else if s = "cl" then some .crtLists
+  else if s = "mc" then some .mainCfg
+  else if s = "rs" then some .reloadSend
+  else if s = "rr" then some .reloadResult
+  else if s.startsWith "sh" then ((s.drop 2).toString.toNat?).map .shard
+  else if s.startsWith "ad" || s.startsWith "ab" then (parseList parseNat? ((s.drop 2).toString) "+").map .admin
+  else none
+
+def parseEv (p : Nat) (s : String) : Option (Ev p) :=
+  let rest := (s.drop 1).toString
+  if s = "F" then some .full
+  else if s.startsWith "u" then (parseFault ((rest.dropWhile (· == ':')).toString)).map .upd
+  else if s.startsWith "q" then (parseFault ((rest.dropWhile (· == ':')).toString)).map .qrun
+  else if s.startsWith "a" then
+    match rest.splitOn "." with
+    | [x, c, sl] => do some (.acq (← toFin p x) { cfg := ← c.toNat?, slots := ← sl.toNat? })
+    | _ => none
+  else if s.startsWith "r" then (parseList (toFin p) rest ".").map .rem
+  else if s.startsWith "H" then
+    match rest.splitOn "." with
+    | [x, c] => do some (.hacq (← toFin p x) (← c.toNat?))
+    | _ => none
+  else if s.startsWith "R" then (parseList (toFin p) rest ".").map .hrem
+  else if s.startsWith "T" then rest.toNat?.map .tcp
+  else none
+
+def showEnt (e : Ent) : String := s!"{e.name}:{e.cfg}:{e.slots}"
+def showEnts (l : List Ent) : String := if l.isEmpty then "-" else "+".intercalate (l.map showEnt)
+def showPairs (l : List (Nat × Nat)) : String :=
+  if l.isEmpty then "-" else "+".intercalate (l.map fun h => s!"{h.1}:{h.2}")
+
+/-- one observation, on both sides -/
+structure IObs where
+  err : Bool
+  items : List Ent
+  hosts : List (Nat × Nat)
+  want : Nat
+  files : List (Nat × List Ent)
+  maps : List (Nat × Nat)
+  tcp : Nat × Nat × Nat
+  rback : List Ent
+  rmaps : List (Nat × Nat)
+  rtcp : Nat × Nat × Nat
+  pending : Bool
+deriving DecidableEq
+
+def showTcp (t : Nat × Nat × Nat) : String := s!"{t.1}.{t.2.1}.{t.2.2}"
+
+def showIObs (o : IObs) : String :=
+  "|".intercalate [if o.err then "e1" else "e0", showEnts o.items, showPairs o.hosts, toString o.want,
+    ",".intercalate (o.files.map fun f => s!"{f.1}={showEnts f.2}"), showPairs o.maps, showTcp o.tcp,
+    showEnts o.rback, showPairs o.rmaps, showTcp o.rtcp, if o.pending then "1" else "0"]
+
+def mapsOf {p : Nat} (m : Fin p → Option (Nat × Bool)) : List (Nat × Nat) :=
+  (List.finRange p).filterMap fun x => (m x).map fun e => (x.val, e.1)
+
+def iobsOf {p : Nat} (sh : Sh p) (r : Res p) : IObs :=
+  let w := r.w
+  { err := r.err
+    items := entsOf w.g.w.store.items
+    hosts := (List.finRange p).filterMap fun x => (w.h.items x).map fun c => (x.val, c)
+    want := w.tcp.want
+    files := (List.range sh.files).map fun k => (k, entsOf (w.g.w.disk k))
+    maps := if w.mainHosts then mapsOf w.h.maps else []
+    tcp := (w.tcp.map, w.tcp.crt, w.tcp.main)
+    rback := entsOf w.run.back
+    rmaps := mapsOf w.run.maps
+    rtcp := (w.run.tcpMap, w.run.tcpCrt, w.run.tcpMain)
+    pending := w.pending }
+
+def trace {p : Nat} (o : Opt) (sh : Sh p) : FW p → List (Ev p) → List IObs
+  | _, [] => []
+  | w, .upd f :: es => let r := upd o sh f w; iobsOf sh r :: trace o sh r.w es
+  | w, .qrun f :: es => let r := qrun sh f w; iobsOf sh r :: trace o sh r.w es
+  | w, e :: es => trace o sh (step o sh w e) es
+
+def parseEnt (s : String) : Option Ent :=
+  match s.splitOn ":" with
+  | [a, b, c] => do some { name := ← a.toNat?, cfg := ← b.toNat?, slots := ← c.toNat? }
+  | _ => none
+def parseEnts (s : String) : Option (List Ent) := parseList parseEnt s "+"
+def parsePair (s : String) : Option (Nat × Nat) :=
+  match s.splitOn ":" with
+  | [a, b] => do some (← a.toNat?, ← b.toNat?)
+  | _ => none
+def parsePairs (s : String) : Option (List (Nat × Nat)) := parseList parsePair s "+"
+def parseFile (s : String) : Option (Nat × List Ent) :=
+  match s.splitOn "=" with
+  | [k, es] => do some (← k.toNat?, ← parseEnts es)
+  | _ => none
+def parseTcp (s : String) : Option (Nat × Nat × Nat) :=
+  match s.splitOn "." with
+  | [a, b, c] => do some (← a.toNat?, ← b.toNat?, ← c.toNat?)
+  | _ => none
+
+def parseIObs (s : String) : Option IObs :=
+  match s.splitOn "|" with
+  | [e, i, h, w, f, m, t, rb, rm, rt, pe] => do
+    some { err := e == "e1", items := ← parseEnts i, hosts := ← parsePairs h, want := ← w.toNat?
+           files := ← parseList parseFile f ",", maps := ← parsePairs m, tcp := ← parseTcp t
+           rback := ← parseEnts rb, rmaps := ← parsePairs rm, rtcp := ← parseTcp rt, pending := pe == "1" }
+  | _ => none
+
+/-- the parts of the configuration, in the order `HAProxyUpdate` writes them -/
+inductive Part where
+  | tcpMap | frontMaps | tcpCrt | cfg
+deriving DecidableEq
+
+/-- Spec on one observation: which parts do not hold the in-memory model (`stale`), which ones
+hold it but were never loaded (`unloaded`) -/
+def partState (files : Nat) (shardOf : Nat → Nat) (o : IObs) (pt : Part) : Bool × Bool :=
+  match pt with
+  | .tcpMap =>
+    let stale := o.want != 0 && o.tcp.1 != o.want
+    (stale, !stale && o.want != 0 && o.rtcp.1 != o.tcp.1)
+  | .frontMaps =>
+    let stale := o.maps != o.hosts
+    (stale, !stale && o.rmaps != o.maps)
+  | .tcpCrt =>
+    let stale := o.want != 0 && o.tcp.2.1 != o.want
+    (stale, !stale && o.want != 0 && o.rtcp.2.1 != o.tcp.2.1)
+  | .cfg =>
+    let c05 : C05.Obs := { items := o.items, add := [], del := [], changed := [], disk := o.files }
+    let stale := (diskClause files shardOf c05).isSome || o.tcp.2.2 != o.want
+    let onDisk := (o.files.map (·.2)).flatten
+    (stale, !stale && (onDisk.any (fun e => !o.rback.contains e) || o.rtcp.2.2 != o.tcp.2.2))
+
+def allParts : List Part := [.tcpMap, .frontMaps, .tcpCrt, .cfg]
+
+/-- the property on one settled observation (a fault-free retry with an empty batch was just
+done): `Disk = render model ∧ Running = load Disk`.  `lastReloadFault`: the last injected fault was
+a failed reload. -/
+def settledClause (files : Nat) (shardOf : Nat → Nat) (lastReloadFault : Bool) (o : IObs) : Option String :=
+  let st := allParts.map fun pt => (pt, partState files shardOf o pt)
+  let stale := st.filter fun x => x.2.1
+  let unloaded := st.filter fun x => x.2.2
+  if o.err then some "retry-without-fault-fails"
+  else if !stale.isEmpty && !unloaded.isEmpty then some "half-written-files-after-fault"
+  else match stale.head? with
+    | some (.tcpMap, _) => some "change-lost-after-failed-map-write"
+    | some (.frontMaps, _) => some "change-lost-after-failed-map-write"
+    | some (.tcpCrt, _) => some "change-lost-after-failed-crtlist-write"
+    | some (.cfg, _) => some "change-lost-after-failed-cfg-write"
+    | none =>
+      if !unloaded.isEmpty then
+        some (if lastReloadFault then "reload-not-retried-after-failed-reload" else "reload-skipped-after-failed-write")
+      else if o.pending then some "reload-left-pending"
+      else none
+
+def Ev.isRun {p : Nat} : Ev p → Bool
+  | .upd _ => true
+  | .qrun _ => true
+  | _ => false
+
+def Ev.fault {p : Nat} : Ev p → Fault
+  | .upd f => f
+  | .qrun f => f
+  | _ => .none
+
+/-- settled points of a history.  Direct mode: a fault-free `u` right after a `u`.  Queue mode: a
+fault-free `q` right after a fault-free `u` that came right after a `u`/`q` (the reconcile retry and
+the queue worker have both run, nothing new arrived).  `prev2 prev1`: the two ops before. -/
+def specTrace {p : Nat} (queue : Bool) (files : Nat) (shardOf : Nat → Nat) :
+    Option (Ev p) → Option (Ev p) → Bool → List (Ev p) → List IObs → Option String
+  | _, _, _, [], _ => none
+  | _, _, _, _, [] => none
+  | p2, p1, lastRF, e :: es, os =>
+    if !e.isRun then specTrace queue files shardOf p1 (some e) lastRF es os else
+    match os with
+    | [] => none
+    | o :: os' =>
+      let clean := e.fault == .none
+      let prevRun := match p1 with | some x => x.isRun | none => false
+      let settled :=
+        if queue then
+          (match e with | .qrun _ => true | _ => false) && clean &&
+          (match p1 with | some (.upd .none) => true | _ => false) &&
+          (match p2 with | some x => x.isRun | none => false)
+        else (match e with | .upd _ => true | _ => false) && clean && prevRun
+      let lastRF' := if clean then lastRF else e.fault.isReload
+      match (if settled then settledClause files shardOf lastRF o else none) with
+      | some c => some c
+      | none => specTrace queue files shardOf p1 (some e) lastRF' es os'
+
+/-- generator discipline the model relies on (besides C05's): while a host map is referenced a host
+exists (an emptied map file is not rewritten by the real code, C05 counts referenced files only) -/
+def hostsNeverEmptied {p : Nat} (o : Opt) (sh : Sh p) : FW p → List (Ev p) → Bool
+  | _, [] => true
+  | w, e :: es =>
+    let w' := step o sh w e
+    (match e with
+      | .upd _ => !(w.mainHosts || hasHosts w.h) || hasHosts w'.h || !(anyFin fun x => (w'.h.maps x).isSome)
+      | _ => true) && hostsNeverEmptied o sh w' es
+
+def handleInst (q n shards ops : String) (impl : String) : Verdict :=
+  match n.toNat?, parseList parseNat? shards "." with
+  | some n, some shl =>
+    let p := shl.length
+    let shardOfN : Nat → Nat := fun i => shl.getD i 0
+    let sh : Sh p := { n := n, shardOf := fun x => shardOfN x.val }
+    let o : Opt := { queue := q == "1" }
+    match parseList (parseEv p) ops "," with
+    | none => bad "ops"
+    | some evs =>
+      if impl.startsWith "PANIC" then { model := "-", agree := false, oracle := some "panic-in-instance-update" } else
+      let tr := trace o sh {} evs
+      let m := ";".intercalate (tr.map showIObs)
+      match (impl.splitOn ";").mapM parseIObs with
+      | none => { model := m, agree := false, oracle := some "unparsable-implementation-output" }
+      | some obs =>
+        let disc := allOk o sh {} evs && hostsNeverEmptied o sh {} evs
+        { model := m, agree := m == impl
+          oracle := if disc then specTrace o.queue sh.files shardOfN none none false evs obs else none
+          trivial := !disc || !(evs.any fun e => e.isRun && e.fault != .none) }
+  | _, _ => bad "args"
+
+def handle (args : List String) (impl : String) : Verdict :=
+  match args with
+  | ["inst", q, n, shards, ops] => handleInst q n shards ops impl
+  | _ => bad "C12"
 
 end HapVerif.C12
